@@ -1,6 +1,7 @@
 (* C02 — property theorems (statements only; proofs live in Proofs*.v). *)
 From Coq Require Import ZArith QArith Qcanon List Bool Permutation.
 Require Import QV.C02.Spec QV.C02.Model QV.C02.Proofs QV.C02.Proofs2 QV.C02.Proofs3.
+Require Import QV.C02.Stack QV.C02.ProofsStack QV.C02.Merge QV.C02.ProofsMerge QV.C02.Rewrite QV.C02.ProofsRw.
 Import ListNotations.
 Open Scope Qc_scope.
 
@@ -21,7 +22,7 @@ Print Assumptions C02_duration.
 
 (* no program is produced exactly when the template plays nothing (then it denotes no window either) *)
 Theorem C02_empty : forall p en mm,
-  valid p en mm = true -> (create_program p en mm = NoProgram <-> plays p en = false).
+  check p en mm = None -> (create_program p en mm = NoProgram <-> plays p en = false).
 Proof. exact create_program_none. Qed.
 Print Assumptions C02_empty.
 
@@ -64,11 +65,127 @@ Theorem C02_loop_windows_additive : forall l, QV.C02.Corr.exec_windows l = loop_
 Proof. exact exec_windows_eq. Qed.
 Print Assumptions C02_loop_windows_additive.
 
+(* ---- round 2: the Python stack machine ------------------------------------------------------------------------------ *)
+(* REFINEMENT.  LoopBuilder as the stack machine it is (Stack.v: explicit stack of Loop / LoopGuard frames per builder,
+   a stack of builders for time_reversed / new_subprogram, every method and every context-manager enter / exit a
+   separate step).  Running the calls a template performs (Stack.events) from ANY machine state whose innermost
+   builder is the concretisation of a functional builder state t (guards in front of the Loop frame they write to)
+   ends - without getting stuck - in the concretisation of `build p en mm t`; the frames below the guards, the other
+   builders and the identity of the Loop frame are untouched.  For all templates, environments and mappings. *)
+Theorem C02_stack_refines : forall p en mm t n x rest bs,
+  run (events p en mm) (conc t n x rest :: bs) = Some (conc (build p en mm t) n x rest :: bs).
+Proof. exact stack_refines. Qed.
+Print Assumptions C02_stack_refines.
+
+(* ... in particular create_program on a fresh LoopBuilder returns the program of the functional builder: same
+   children, same own measurements, same body duration (the whole root Loop is equal) *)
+Theorem C02_stack_program : forall p en mm, sm_program p en mm = Some (to_program (build p en mm fresh)).
+Proof. exact stack_program. Qed.
+Print Assumptions C02_stack_program.
+
+(* hence the property holds of the stack machine's program *)
+Theorem C02_stack_windows : forall p en mm prog,
+  check p en mm = None -> sm_program p en mm = Some (Some prog) ->
+  ldur prog = tdur p en /\ Permutation (loop_windows prog) (denote p en mm).
+Proof.
+  intros p en mm prog Hc H. rewrite stack_program in H. injection H as H.
+  assert (Hp : create_program p en mm = Program prog) by (unfold create_program; rewrite Hc, H; reflexivity).
+  destruct (create_program_windows p en mm prog Hp) as (_ & Hd & Hw). auto.
+Qed.
+Print Assumptions C02_stack_windows.
+
+(* ---- round 2: MappingPT's constructor-time merging ----------------------------------------------------------------------- *)
+(* the tree the constructors really build (Merge.norm: every MappingPT absorbs a directly nested constraint-free
+   MappingPT, composing the parameter substitutions and the measurement renamings) plays, lasts and denotes exactly
+   what the tree as written does - for every environment and mapping *)
+Theorem C02_mapping_merge : forall p en mm,
+  plays (norm p) en = plays p en /\ tdur (norm p) en = tdur p en /\ denote (norm p) en mm = denote p en mm.
+Proof. intros p en mm. destruct (norm_sem p en mm) as (A & B & _ & D). auto. Qed.
+Print Assumptions C02_mapping_merge.
+
+Theorem C02_mapping_merge_program : forall p en mm prog,
+  create_program (norm p) en mm = Program prog ->
+  ldur prog = tdur p en /\ Permutation (loop_windows prog) (denote p en mm).
+Proof. exact norm_program_windows. Qed.
+Print Assumptions C02_mapping_merge_program.
+
+(* the merged mappings are the compositions, pointwise *)
+Theorem C02_merge_composes : forall pm2 pm1 mml2 mml1 en mm,
+  (forall x, menv (merge_pm pm2 pm1) en x = menv pm1 (menv pm2 en) x) /\
+  (forall k, mcomp (merge_mm mml2 mml1) mm k = mcomp mml1 (mcomp mml2 mm) k).
+Proof. intros. split; [apply menv_merge | apply mcomp_merge]. Qed.
+Print Assumptions C02_merge_composes.
+
+(* ---- round 2: windows under the structural rewrites of Loop ----------------------------------------------------------------- *)
+(* every rewrite keeps the duration, and windows-after ++ (the windows the rewrite is known to drop) = windows-before;
+   nothing is dropped by encapsulate, split_one_child, _merge_single_child *)
+Theorem C02_rewrites : forall r l l',
+  apply_rw r l = Some l' ->
+  match r with
+  | RUnroll i => l_wf l = None \/ exists c, nth_error (l_ch l) i = Some c /\ (1 <= l_rep c)%nat
+  | RUnrollChildren => (1 <= l_rep l)%nat
+  | _ => True
+  end ->
+  ldur l' = ldur l /\ Permutation (loop_windows l' ++ lost_rw r l) (loop_windows l).
+Proof. exact apply_rw_spec. Qed.
+Print Assumptions C02_rewrites.
+
+(* Loop.unroll() / Loop.unroll_children() as they are lose the unrolled loop's own windows: the unguarded statement
+   "the rewrite keeps get_measurement_windows()" is false of the faithful model (and of the code: known finding
+   rewrite-drops-own-measurements) ... *)
+Theorem C02_unroll_keeps_windows_refuted :
+  exists i l l', unroll_at i l = Some l' /\ ~ Permutation (loop_windows l') (loop_windows l).
+Proof. exact unroll_at_refuted. Qed.
+Print Assumptions C02_unroll_keeps_windows_refuted.
+Theorem C02_unroll_children_keeps_windows_refuted :
+  exists l l', (1 <= l_rep l)%nat /\ unroll_children l = Some l' /\ ~ Permutation (loop_windows l') (loop_windows l).
+Proof. exact unroll_children_refuted. Qed.
+Print Assumptions C02_unroll_children_keeps_windows_refuted.
+
+(* ... and true under the executable guard "the rewritten loop has no own windows to lose" *)
+Definition guard_C02_rewrite_drops_own_measurements (r : rw) (l : loop) : bool := is_nil (lost_rw r l).
+Theorem C02_rewrites_preserve : forall r l l',
+  apply_rw r l = Some l' ->
+  match r with
+  | RUnroll i => l_wf l = None \/ exists c, nth_error (l_ch l) i = Some c /\ (1 <= l_rep c)%nat
+  | RUnrollChildren => (1 <= l_rep l)%nat
+  | _ => True
+  end ->
+  guard_C02_rewrite_drops_own_measurements r l = true ->
+  ldur l' = ldur l /\ Permutation (loop_windows l') (loop_windows l).
+Proof.
+  intros r l l' H Hs Hg. destruct (apply_rw_spec r l l' H Hs) as [R1 R2]. split; [exact R1|].
+  unfold guard_C02_rewrite_drops_own_measurements in Hg. destruct (lost_rw r l); [|discriminate].
+  now rewrite app_nil_r in R2.
+Qed.
+Print Assumptions C02_rewrites_preserve.
+Example C02_rewrites_preserve_nonvacuous :
+  let c := Loop 2 None [] [Loop 3 (Some (Q2Qc 2)) [(0%N, Q2Qc 0, Q2Qc 1)] []; Loop 1 (Some (Q2Qc 1)) [] []] in
+  let l := Loop 2 None [(1%N, Q2Qc 1, Q2Qc 1)] [Loop 1 (Some (Q2Qc 1)) [] []; c] in
+  match apply_rw (RUnroll 1) l with
+  | Some l' => guard_C02_rewrite_drops_own_measurements (RUnroll 1) l && (length (loop_windows l') =? 14)%nat
+  | None => false
+  end = true.
+Proof. vm_compute. reflexivity. Qed.
+
+(* ---- round 2: what the code does with a declaration that sticks out of its node ------------------------------------------- *)
+(* nothing compares a window with the duration of its node: such an assignment is accepted and the window is
+   reported beyond the end of the program (the `inside` hypothesis of C02_inside cannot be dropped) *)
+Example C02_outside_is_accepted :
+  let p := Atom false (EC (Q2Qc 2)) [(1%N, EC (Q2Qc 1), EC (Q2Qc 3))] in
+  match create_program p (fun _ => Q2Qc 0) Some with
+  | Program prog => negb (inside p (fun _ => Q2Qc 0)) && must_accept p (fun _ => Q2Qc 0)
+                    && Qceqb (ldur prog) (Q2Qc 2)
+                    && match loop_windows prog with [(_, b, l)] => Qcltb (ldur prog) (b + l) | _ => false end
+  | _ => false
+  end = true.
+Proof. vm_compute. reflexivity. Qed.
+
 (* non-vacuity: a reversed repetition inside a sequence with renaming satisfies the hypotheses of C02_windows and
    C02_inside (a program is produced, all declarations inside their nodes) and reports 4 windows *)
 Example C02_example :
   let a := Atom false (EC (Q2Qc 3)) [(1%N, EC (Q2Qc 1), EC (Q2Qc 1))] in
-  let p := Seq [(2%N, EC (Q2Qc 0), EC (Q2Qc 9))] [a; Rev (Rep [] (EC (Q2Qc 2)) (Map [] [(1%N, Some 3%N)] a))] in
+  let p := Seq [(2%N, EC (Q2Qc 0), EC (Q2Qc 9))] [a; Rev (Rep [] (EC (Q2Qc 2)) (Map [] [(1%N, Some 3%N)] [] a))] in
   match create_program p (fun _ => Q2Qc 0) Some with
   | Program prog => inside p (fun _ => Q2Qc 0) && (length (loop_windows prog) =? 4)%nat
   | _ => false
